@@ -116,7 +116,7 @@ const c02Rules = "# header\nSecRule ARGS \"@rx OLD\" \\\n    \"id:123456,\\\n   
 
 func C02(r *core.Run) {
 	shrinkAllowFlags = true
-	spec := sweepSpec{Tokens: c02Tokens, One: r.Pick(3, 4), Two: 2, Three: r.Thorough(), StructLen: 0, Mixed: true, FullHdr: 2, Flags: true, HdrOnly: true}
+	spec := sweepSpec{Tokens: c02Tokens, One: r.Pick(3, 4), Two: 2, Three: r.Thorough(), StructLen: 0, Mixed: true, FullHdr: 2, Flags: true, HdrOnly: true, PreSuf: true}
 	if r.Degraded() {
 		spec = sweepSpec{Tokens: c02Tokens, One: 2, Two: 1, FullHdr: 1, Flags: true, HdrOnly: true}
 	}
